@@ -10,7 +10,7 @@ CHECK = {
              "suffix as the manager does, sometimes an inner run or a single file; later steps merge outputs of earlier ones. After "
              "every step: ObserveStack(before) == ObserveStack(after) for the ID set and every field incl. payload and packet "
              "references, the inputs still read the same, and the output passes the C01 reader oracle against the newest versions "
-             "of the run. Host campaigns: 2-3 files of one-packet streams over overlapping ranges of a numbered host space "
+             "of the run. Some streams are chatty (1200-5000 direction changes, more than any 4 KiB copy buffer holds). The search part of the statement: sorted / limited / time-window searches and filters built from the ports, hosts, byte counts, protocol, ids and payload bytes of visible streams (with OR / NOT) return the same streams before and after every merge. Host campaigns: 2-3 files of one-packet streams over overlapping ranges of a numbered host space "
              "(up to ~1.5 host groups per file, union overflowing a group). Non-trivial: some merged run contains a shadowed ID "
              "and two adjacent files with different reference seconds; distinct = distinct (files, steps)."),
     "technique": "property-based testing (rapid): metamorphic comparison of the visible stream set before/after each merge plus model-based check of the merge output",
